@@ -26,21 +26,22 @@ const head = `{"openapi":"3.0.3","info":{"title":"t","version":"v"},`
 const ok200 = `"responses":{"200":{"description":"ok"}}`
 
 var specs = map[string]string{
-	"ok.json":       head + `"paths":{"/a":{"get":{` + ok200 + `}}}}`,
-	"ok2.json":      head + `"paths":{"/a/{id}":{"get":{"parameters":[{"name":"id","in":"path","required":true,"schema":{"type":"integer"}}],"responses":{"200":{"description":"ok","content":{"application/json":{"schema":{"type":"object","required":["n"],"properties":{"n":{"type":"string","minLength":1}}}}}}}}}}}`,
-	"version.json":  `{"openapi":"1.0","info":{"title":"t","version":"v"},"paths":{}}`,
-	"invalid.json":  head + `"paths":{"/a":{"get":{"parameters":[{"name":"p","in":"query"}],` + ok200 + `}}}}`,
-	"dangling.json": head + `"paths":{"/a":{"get":{"responses":{"200":{"$ref":"#/components/responses/Nope"}}}}}}`,
-	"extref.json":   head + `"paths":{"/a":{"get":{"responses":{"200":{"$ref":"missing.json#/components/responses/Nope"}}}}}}`,
-	"notimpl.json":  head + `"paths":{"/a":{"get":{"parameters":[{"name":"p","in":"query","style":"spaceDelimited","schema":{"type":"array","items":{"type":"string"}}}],` + ok200 + `}}}}`,
-	"adjacent.json": head + `"paths":{"/a/{x}{y}":{"get":{"parameters":[{"name":"x","in":"path","required":true,"schema":{"type":"string"}},{"name":"y","in":"path","required":true,"schema":{"type":"string"}}],` + ok200 + `}}}}`,
-	"duproute.json": head + `"paths":{"/a/{x}":{"get":{"parameters":[{"name":"x","in":"path","required":true,"schema":{"type":"string"}}],` + ok200 + `}},"/a/{y}":{"get":{"parameters":[{"name":"y","in":"path","required":true,"schema":{"type":"string"}}],` + ok200 + `}}}}`,
-	"dupop.json":    head + `"paths":{"/a":{"get":{"operationId":"foo",` + ok200 + `}},"/b":{"get":{"operationId":"foo",` + ok200 + `}}}}`,
-	"conflict.json": head + `"paths":{"/a":{"get":{"responses":{"200":{"description":"ok","content":{"application/json":{"schema":{"$ref":"#/components/schemas/Foo"}}}}}}}},"components":{"schemas":{"Foo":{"type":"object","properties":{"a":{"$ref":"#/components/schemas/foo"}}},"foo":{"type":"object","properties":{"b":{"type":"string"}}}}}}`,
-	"badjson.json":  `{"openapi": "3.0.3", "info": {`,
-	"badyaml.yml":   "openapi: 3.0.3\ninfo:\n  title: [unclosed\n",
-	"empty.json":    ``,
-	"cycle.json":    head + `"paths":{"/a":{"get":{"responses":{"200":{"$ref":"#/components/responses/A"}}}}},"components":{"responses":{"A":{"$ref":"#/components/responses/B"},"B":{"$ref":"#/components/responses/A"}}}}`,
+	"ok.json":        head + `"paths":{"/a":{"get":{` + ok200 + `}}}}`,
+	"ok2.json":       head + `"paths":{"/a/{id}":{"get":{"parameters":[{"name":"id","in":"path","required":true,"schema":{"type":"integer"}}],"responses":{"200":{"description":"ok","content":{"application/json":{"schema":{"type":"object","required":["n"],"properties":{"n":{"type":"string","minLength":1}}}}}}}}}}}`,
+	"version.json":   `{"openapi":"1.0","info":{"title":"t","version":"v"},"paths":{}}`,
+	"invalid.json":   head + `"paths":{"/a":{"get":{"parameters":[{"name":"p","in":"query"}],` + ok200 + `}}}}`,
+	"dangling.json":  head + `"paths":{"/a":{"get":{"responses":{"200":{"$ref":"#/components/responses/Nope"}}}}}}`,
+	"extref.json":    head + `"paths":{"/a":{"get":{"responses":{"200":{"$ref":"missing.json#/components/responses/Nope"}}}}}}`,
+	"notimpl.json":   head + `"paths":{"/a":{"get":{"parameters":[{"name":"p","in":"query","style":"spaceDelimited","schema":{"type":"array","items":{"type":"string"}}}],` + ok200 + `}}}}`,
+	"adjacent.json":  head + `"paths":{"/a/{x}{y}":{"get":{"parameters":[{"name":"x","in":"path","required":true,"schema":{"type":"string"}},{"name":"y","in":"path","required":true,"schema":{"type":"string"}}],` + ok200 + `}}}}`,
+	"duproute.json":  head + `"paths":{"/a/{x}":{"get":{"parameters":[{"name":"x","in":"path","required":true,"schema":{"type":"string"}}],` + ok200 + `}},"/a/{y}":{"get":{"parameters":[{"name":"y","in":"path","required":true,"schema":{"type":"string"}}],` + ok200 + `}}}}`,
+	"recstruct.json": head + `"paths":{"/a":{"get":{` + ok200 + `,"requestBody":{"content":{"application/json":{"schema":{"$ref":"#/components/schemas/Node"}}}}}}},"components":{"schemas":{"Node":{"type":"object","required":["next"],"properties":{"next":{"$ref":"#/components/schemas/Node"}}}}}}`,
+	"dupop.json":     head + `"paths":{"/a":{"get":{"operationId":"foo",` + ok200 + `}},"/b":{"get":{"operationId":"foo",` + ok200 + `}}}}`,
+	"conflict.json":  head + `"paths":{"/a":{"get":{"responses":{"200":{"description":"ok","content":{"application/json":{"schema":{"$ref":"#/components/schemas/Foo"}}}}}}}},"components":{"schemas":{"Foo":{"type":"object","properties":{"a":{"$ref":"#/components/schemas/foo"}}},"foo":{"type":"object","properties":{"b":{"type":"string"}}}}}}`,
+	"badjson.json":   `{"openapi": "3.0.3", "info": {`,
+	"badyaml.yml":    "openapi: 3.0.3\ninfo:\n  title: [unclosed\n",
+	"empty.json":     ``,
+	"cycle.json":     head + `"paths":{"/a":{"get":{"responses":{"200":{"$ref":"#/components/responses/A"}}}}},"components":{"responses":{"A":{"$ref":"#/components/responses/B"},"B":{"$ref":"#/components/responses/A"}}}}`,
 }
 
 var configs = map[string]string{
@@ -77,6 +78,7 @@ var stages = []stage{
 	{"not-implemented-feature", []string{"notimpl.json"}, true},
 	{"ir-name-conflict", []string{"conflict.json"}, true},
 	{"ir-duplicate-operation-id", []string{"dupop.json"}, true},
+	{"ir-infinitely-recursive-struct", []string{"recstruct.json"}, true},
 	{"route-adjacent-parameters", []string{"adjacent.json"}, true},
 	{"route-duplicate", []string{"duproute.json"}, true},
 	{"unsupported-url-scheme", []string{"ftp://example.com/spec.json"}, true},
@@ -421,6 +423,18 @@ func Main(args []string) int {
 	for _, st := range stages {
 		for _, clean := range []bool{false, true} {
 			for _, ts := range tstates {
+				jobs = append(jobs, job{st: st, clean: clean, ts: ts})
+			}
+		}
+	}
+	// every document of the repository's negative corpus: whatever stage of parser, IR construction or routing
+	// refuses it, the refusal must come before anything is written (a document the command accepts is judged as
+	// a successful run)
+	for _, p := range genlab.Corpus("negative") {
+		rel := strings.TrimPrefix(p, filepath.Join(ev.RepoDir(), "_testdata")+"/")
+		st := stage{Name: rel, Args: []string{p}, Fail: false}
+		for _, clean := range []bool{false, true} {
+			for _, ts := range []tstate{tstates[0], tstates[3], tstates[4]} {
 				jobs = append(jobs, job{st: st, clean: clean, ts: ts})
 			}
 		}
